@@ -36,13 +36,14 @@ class _TzOffsetFactory(_TzFactory):
         else:
             key = (name, offset)
 
-        instance = cls.__instances.get(key, None)
-        if instance is None:
-            instance = cls.__instances.setdefault(key,
-                                                  cls.instance(name, offset))
-
-        # This lock may not be necessary in Python 3. See GH issue #901
+        # WeakValueDictionary.setdefault is a read followed by a write, so the
+        # lookup-or-create must be serialised as well (see GH issue #901)
         with cls._cache_lock:
+            instance = cls.__instances.get(key, None)
+            if instance is None:
+                instance = cls.__instances.setdefault(key,
+                                                      cls.instance(name, offset))
+
             cls.__strong_cache[key] = cls.__strong_cache.pop(key, instance)
 
             # Remove an item if the strong cache is overpopulated
@@ -62,14 +63,15 @@ class _TzStrFactory(_TzFactory):
 
     def __call__(cls, s, posix_offset=False):
         key = (s, posix_offset)
-        instance = cls.__instances.get(key, None)
-
-        if instance is None:
-            instance = cls.__instances.setdefault(key,
-                cls.instance(s, posix_offset))
-
-        # This lock may not be necessary in Python 3. See GH issue #901
+        # WeakValueDictionary.setdefault is a read followed by a write, so the
+        # lookup-or-create must be serialised as well (see GH issue #901)
         with cls.__cache_lock:
+            instance = cls.__instances.get(key, None)
+
+            if instance is None:
+                instance = cls.__instances.setdefault(key,
+                    cls.instance(s, posix_offset))
+
             cls.__strong_cache[key] = cls.__strong_cache.pop(key, instance)
 
             # Remove an item if the strong cache is overpopulated
